@@ -114,7 +114,10 @@ class ProjectSettings:
         """
 
         if start is not None:
-            self.sim_start = start
+            if end is None and dt is None:
+                self.sim_start = start  # Update the simulation end year automatically to account for the new start year
+            else:
+                self._sim_start = start  # Change sim_start internally so that the sim_end is only changed once
 
         if dt is not None:
             if end is None:
